@@ -1,5 +1,6 @@
 """C15 - the encrypted transport delivers the exact message sequence or disconnects (structural part)."""
 from engine import *
+import provenance
 import re
 
 PH = 'lightning::ln::peer_handler::'
@@ -439,4 +440,5 @@ RULES = [
 	('15.g', 'inbound reassembly: header state restored after every decrypted body (also on ignore-and-continue arms), body state after every header', r15g),
 	('15.h', 'node_id_to_descriptor is cleaned wherever a peer is removed, unconditionally on the handshake state', r15h),
 	('15.e', 'messages are encrypted / decrypted only in NoiseState::Finished, entered only by an authenticated act', r15e),
+	('15.p', 'same-name field transfer: structs carrying this property\'s quantities are filled from the same-named field or a reviewed alias (rules/provenance.py)', lambda F: provenance.for_property(F, 'C15', '15.p')),
 ]
